@@ -149,6 +149,23 @@ def mcp_roundtrip(cls, vt, k, data):
     if st != "ok":
         return st, (None if st in ("r", "other:ValueError") else f"decode_dpt_payload: {st}")
     cj = D.canon(j)
+    # a value that does NOT come from the decode tool: the datapoint class's own decoding of the payload.  Where that is already
+    # JSON-native (int / float / str / bool), the tools must carry exactly this value: encode it, decode the result, compare.
+    try:
+        direct = cls.from_knx(DPTBinary(data) if k == "b" else DPTArray(tuple(data)))
+    except Exception:  # noqa: BLE001
+        direct = None
+    if type(direct) in (int, float, str, bool) and direct == direct:
+        cd = D.canon(direct)
+        try:
+            enc_d = _call(tools.encode_dpt_payload(EncodeDptPayloadInput(value_type=vt, value=direct)))
+            enc_d = json.loads(json.dumps(dataclasses.asdict(enc_d)))["payload"]
+            st_d, j_d = _decode_tool(vt, enc_d)
+        except Exception as e:  # noqa: BLE001
+            st_d, j_d = f"other:{type(e).__name__}", None
+        if st_d == "ok" and D.canon(j_d) != cd and not (isinstance(direct, str) and isinstance(j_d, str) and direct.replace("\ufffd", "?") == j_d):
+            return f"{cd}>>{D.canon(j_d)}", (f"the valid JSON-native value {direct!r} is encoded and decoded again as {j_d!r} "
+                                            f"(not that value, and the value is representable: it is what the payload means)")
     try:
         enc = _call(tools.encode_dpt_payload(EncodeDptPayloadInput(value_type=vt, value=j)))
         enc = json.loads(json.dumps(dataclasses.asdict(enc)))["payload"]
